@@ -5218,6 +5218,10 @@ class PyCdlib:
                     if parent.ptr is not None:
                         num_bytes_to_remove += self._remove_from_ptr_size(parent.ptr)
 
+                    # The relocation directory is gone; the next relocation
+                    # has to make a new one.
+                    self._rr_moved_record = dr.DirectoryRecord()
+
                 cl = child.rock_ridge.moved_to_cl_dr
                 if cl is None:
                     raise pycdlibexception.PyCdlibInternalError('Invalid child link record')
